@@ -246,6 +246,167 @@ theorem dist_spurious_get2_cex :
     let s := Dist.runSpur2 (fun t => t = 1) cfg Dist.init (List.replicate 16 0 ++ List.replicate 16 1)
     s.creates = 2 ∧ s.calls = [.upload 2 2, .create 2, .upload 1 1, .create 1] ∧ s.var = some 2 := by decide
 
+/-! ## Crash points -/
+
+/-- **dist_once_with_crashes**: a worker may die with a thread at ANY program point outside the publication window
+(the three steps between the service's answer to `create_multipart_upload` and `shared_state.set(id)`), any number
+of times, anywhere in any schedule - inside the locked block the scheduler frees the lock when the dead worker's
+lease expires: still at most one upload is initiated, nobody fails because of it, every storage call carries the
+one id, the lock is held exactly by the live thread inside the block.  (A thread that is merely never scheduled
+again - a crash without lease expiry - is already covered by `dist_once`, which holds for every schedule.) -/
+theorem dist_once_with_crashes (cfg : Dist.Cfg) (evs : List Dist.Ev)
+    (hc : Dist.crashesOutsideWindow cfg Dist.init evs = true)
+    (hd : (Dist.runEv cfg Dist.init evs).deleted = false) : Dist.Once (Dist.runEv cfg Dist.init evs) := by
+  have hI : Dist.Inv cfg (Dist.runEv cfg Dist.init evs) := Dist.runEv_inv cfg evs _ (Dist.inv_init cfg) hc hd
+  exact ⟨⟨hI.ids.creates_le, hI.count⟩, fun t h => by have := hI.pcs t; rw [h] at this; exact this,
+    hI.calls, ⟨hI.ids.wid_range, hI.ids.var_range⟩, fun t => (hI.mutex t).symm⟩
+
+/-- non-vacuity: worker 0 dies inside the locked block before it has called the service (at the second read);
+the lease expires, worker 1 initiates the one upload and writes its part -/
+example :
+    let cfg : Dist.Cfg := { kind := fun t => .write (t + 1), worker := fun t => t }
+    let evs : List Dist.Ev := (List.replicate 4 (.step 0)) ++ [.crash 0] ++ List.replicate 16 (.step 1)
+    Dist.crashesOutsideWindow cfg Dist.init evs = true ∧ (Dist.runEv cfg Dist.init evs).deleted = false ∧
+      (Dist.runEv cfg Dist.init evs).pc 1 = .done ∧ (Dist.runEv cfg Dist.init evs).creates = 1 ∧
+      (Dist.runEv cfg Dist.init evs).lock = none := by decide
+
+/-- **dist_crash_in_window_cex**: the hypothesis is needed.  Worker 0 dies after the service created the upload and
+before its id was published: the lease expires, worker 1 finds no id and initiates a SECOND upload.  Upload 1 stays
+on the service as an orphan that holds no part (only `cancel("all")` / a lifecycle rule removes it); everything
+after the crash goes under upload 2 - the object is still assembled correctly, the exactly-once claim is lost. -/
+theorem dist_crash_in_window_cex :
+    let cfg : Dist.Cfg := { kind := fun t => .write (t + 1), worker := fun t => t }
+    let evs : List Dist.Ev := (List.replicate 7 (.step 0)) ++ [.crash 0] ++ List.replicate 16 (.step 1)
+    Dist.crashesOutsideWindow cfg Dist.init evs = false ∧ (Dist.runEv cfg Dist.init evs).creates = 2 ∧
+      (Dist.runEv cfg Dist.init evs).calls = [.upload 2 2, .create 2, .create 1] ∧
+      (Dist.runEv cfg Dist.init evs).var = some 2 := by decide
+
+/-- the same crash as the harness injects it (the storage call returns on the service, the worker dies before it
+sees the answer: `stepFx`), followed by the re-run of the dead task and a finalise: three calls under upload 2,
+the orphan 1 untouched -/
+theorem dist_crash_before_publish_cex :
+    let cfg : Dist.Cfg := { kind := fun t => if t = 3 then .fin else .write (if t = 2 then 1 else t + 1),
+                            worker := fun t => t }
+    let s := Dist.runFx (fun _ => false) (fun t => t = 0) cfg Dist.init
+      (List.replicate 8 0 ++ List.replicate 16 1 ++ List.replicate 12 2 ++ List.replicate 12 3)
+    s.creates = 2 ∧ s.pc 0 = .faulted ∧ s.pc 1 = .done ∧ s.pc 2 = .done ∧ s.pc 3 = .done ∧
+      s.calls = [.complete 2, .upload 1 2, .upload 2 2, .create 2, .create 1] := by decide
+
+/-- **dist_lost_result_retry**: a worker dies between `upload_part` and returning its record (`Cfg.crashCall`,
+covered by `dist_once` like every other `Cfg`): dask re-runs the task elsewhere, the part is uploaded again under
+the SAME upload id (the service keeps the later body), nothing else is initiated. -/
+theorem dist_lost_result_retry :
+    let cfg : Dist.Cfg := { kind := fun t => .write (if t = 2 then 1 else t + 1), worker := fun t => t,
+                            crashCall := fun t => t = 0 }
+    let s := Dist.run cfg (List.replicate 16 0 ++ List.replicate 12 1 ++ List.replicate 12 2)
+    s.pc 0 = .faulted ∧ s.pc 1 = .done ∧ s.pc 2 = .done ∧ s.creates = 1 ∧
+      s.calls = [.upload 1 1, .upload 2 1, .upload 1 1, .create 1] := by decide
+
+/-- **local_crash_before_setid_cex**: in-process, a thread killed between the service's answer and
+`self.uploadId = uploadId` (the exception leaves the `with` block, the lock is freed): the next thread initiates a
+second upload; upload 1 is an orphan without parts. -/
+theorem local_crash_before_setid_cex :
+    let cfg : Local.Cfg := { kind := fun t => .write (t + 1) }
+    let s := (List.replicate 8 0 ++ List.replicate 14 1).foldl (Local.stepCrashC (fun t => t = 0) cfg) Local.init
+    s.creates = 2 ∧ s.pc 0 = .faulted ∧ s.pc 1 = .done ∧ s.held = none ∧
+      s.calls = [.upload 2 2, .create 2, .create 1] := by decide
+
+/-- … while a thread killed after its `upload_part` was carried out (`Local.Cfg.crashCall`, inside `local_once`)
+changes nothing for the others -/
+theorem local_lost_result_retry :
+    let cfg : Local.Cfg := { kind := fun t => .write (if t = 2 then 1 else t + 1), crashCall := fun t => t = 0 }
+    let s := Local.run cfg (List.replicate 14 0 ++ List.replicate 8 1 ++ List.replicate 8 2)
+    s.pc 0 = .faulted ∧ s.pc 1 = .done ∧ s.pc 2 = .done ∧ s.creates = 1 ∧
+      s.calls = [.upload 1 1, .upload 2 1, .upload 1 1, .create 1] := by decide
+
+/-- **sink_crash_keeps_all_bytes**: `MPUFileSink.finalise` interrupted after `k ≥ 1` of the listed parts (distinct,
+all written): the destination holds exactly the concatenation of those `k` parts and every later part file is still
+in the parts directory with its content - no byte is lost or duplicated: destination ++ remaining parts = the whole. -/
+theorem sink_crash_keeps_all_bytes (s : Sink) (ps : List Nat) (k : Nat) (f : Nat → Bytes) (hk : 1 ≤ k)
+    (hnd : ps.Nodup) (hne : ps ≠ []) (hw : ∀ p ∈ ps, s.lookup p = some (f p)) :
+    (s.finaliseCrash ps k).dst = some ((ps.take k).flatMap f) ∧
+      (∀ p ∈ ps.drop k, (s.finaliseCrash ps k).lookup p = some (f p)) ∧
+      (ps.take k).flatMap f ++ (ps.drop k).flatMap f = ps.flatMap f := by
+  have hsplit : ps.take k ++ ps.drop k = ps := List.take_append_drop k ps
+  have hnd2 : (ps.take k ++ ps.drop k).Nodup := by rw [hsplit]; exact hnd
+  have hdisj := (List.nodup_append.1 hnd2)
+  cases htk : ps.take k with
+  | nil =>
+    exfalso
+    cases ps with
+    | nil => exact hne rfl
+    | cons a l => cases k with
+      | zero => omega
+      | succ n => simp at htk
+  | cons first rest =>
+    have hmem : ∀ p ∈ first :: rest, p ∈ ps := fun p hp => List.mem_of_mem_take (htk ▸ hp)
+    have hndt : (first :: rest).Nodup := htk ▸ hdisj.1
+    have hnd' := List.nodup_cons.1 hndt
+    have hf := hw first (hmem first List.mem_cons_self)
+    obtain ⟨dir, parts, dst⟩ := s
+    have hw1 : ∀ q ∈ rest,
+        (Sink.mk dir (parts.filter (fun x => x.1 != first)) (some (f first))).lookup q = some (f q) := by
+      intro q hq
+      have hqp : q ≠ first := fun e => hnd'.1 (e ▸ hq)
+      have := Sink.lookup_unlink ⟨dir, parts, dst⟩ q first
+      simp only [Sink.unlink, Sink.lookup, hqp, if_false] at this ⊢
+      rw [this]
+      exact hw q (hmem q (List.mem_cons_of_mem _ hq))
+    have h := Sink.appendParts_ok false f rest _ hnd'.2 hw1
+    refine ⟨?_, ?_, ?_⟩
+    · simp only [Sink.finaliseCrash, htk, hf, Sink.unlink, h]
+      simp [List.flatMap_cons]
+    · intro p hp
+      have hpn : p ∉ first :: rest := fun hin => by
+        have := hdisj.2.2 p (htk ▸ hin) p hp
+        exact this rfl
+      have hp1 : p ≠ first := fun e => hpn (e ▸ List.mem_cons_self)
+      have hp2 : p ∉ rest := fun e => hpn (List.mem_cons_of_mem _ e)
+      simp only [Sink.finaliseCrash, htk, hf, Sink.unlink, h, Bool.false_eq_true, if_false]
+      simp only [Sink.lookup]
+      rw [Sink.lookup_filter_notin _ rest p hp2]
+      have := Sink.lookup_unlink ⟨dir, parts, dst⟩ p first
+      simp only [Sink.unlink, Sink.lookup, hp1, if_false] at this
+      rw [this]
+      exact hw p (List.mem_of_mem_drop hp)
+    · rw [← List.flatMap_append, ← htk, hsplit]
+
+/-- **sink_finalise_retry_after_crash_cex**: what is NOT guaranteed: `finalise` is not restartable.  After a crash
+past the rename a second `finalise` of the same list raises FileNotFoundError (the first part file is gone) and the
+destination stays a strict prefix - visible under its final name; resuming needs a caller who appends the
+remaining parts itself. -/
+theorem sink_finalise_retry_after_crash_cex :
+    let s := [(1, [97]), (2, [98, 98]), (3, [99])].foldl Sink.write {}
+    let c := s.finaliseCrash [1, 2, 3] 2
+    c.dst = some [97, 98, 98] ∧ c.lookup 3 = some [99] ∧ c.dirExists = true ∧
+      (Sink.finalise true c [1, 2, 3] false).2 = some .fileNotFound ∧
+      (Sink.finalise true c [1, 2, 3] false).1.dst = some [97, 98, 98] ∧
+      (Sink.finalise true (s.finaliseCrash [1, 2, 3] 0) [1, 2, 3] false).1.dst = some [97, 98, 98, 99] := by decide
+
+/-! ## `cancel("all")` and the page size of the listing -/
+
+/-- **cancel_all_pages**: `list_active` asks the service for one page.  With at most `page` active uploads of the
+key, `cancel("all")` aborts them all; with more, one call leaves the rest active (`cancel_all_one_page_cex`) and
+`⌈n / page⌉` calls are needed: after `m` calls exactly the uploads beyond the first `m·page` remain. -/
+theorem cancel_all_pages (page : Nat) (s : Seq.State) (m : Nat) :
+    (cancelAllPagedN page m s).active = s.active.drop (m * page) ∧
+      (s.active.length ≤ m * page → (cancelAllPagedN page m s).active = []) := by
+  refine ⟨cancelAllPagedN_active page m s, fun h => ?_⟩
+  rw [cancelAllPagedN_active]
+  exact List.drop_eq_nil_of_le h
+
+/-- within one page the paged listing is the listing of `Seq.step`: the same uploads are aborted -/
+theorem cancel_all_within_page (page : Nat) (s : Seq.State) (h : s.active.length ≤ page) :
+    (cancelAllPaged page s).1.active = [] ∧ (cancelAllPaged page s).2 = (Seq.step s .cancelAll).2.1 ∧
+      (cancelAllPaged page s).1.uploadId = 0 := by
+  simp [cancelAllPaged, Seq.step, List.take_of_length_le h, List.drop_eq_nil_of_le h]
+
+/-- **cancel_all_one_page_cex** (limit of the code as it is, not repaired): 5 orphaned uploads of the key, a service
+that pages by 3: one `cancel("all")` aborts 3, reports nothing, resets the object - 2 uploads stay active -/
+theorem cancel_all_one_page_cex :
+    (cancelAllPaged 3 { creates := 5, active := [1, 2, 3, 4, 5] }).1.active = [4, 5] ∧
+      (cancelAllPagedN 3 2 { creates := 5, active := [1, 2, 3, 4, 5] }).active = [] := by decide
+
 /-! ## Several objects on one cluster -/
 
 /-- **dist_objects_sharing_names_cex**: why the names must depend on the object.  Two objects, one writer copy
